@@ -267,6 +267,11 @@ void sqf::parser::preprocessor::impl_default::instance::replace_skip(::sqf::runt
         if (in_string)
         {
             char c = fileinfo.next();
+            if (c == '\0')
+            { // the text ends inside of the string
+                flag = false;
+                continue;
+            }
             if (c == '"')
             {
                 in_string = false;
